@@ -667,6 +667,7 @@ func (s *Session) initMemManager() error {
 		}
 		if qm, err = createQueueManager(s.config.QueuePath, s.config.QueueCap); err != nil {
 			os.Remove(s.config.QueuePath)
+			addGlobalBufferManagerRefCount(bm.path, -1)
 			return fmt.Errorf("create share memory queue manager failed ,error=%w", err)
 		}
 	} else {
@@ -675,6 +676,7 @@ func (s *Session) initMemManager() error {
 			return fmt.Errorf("create share memory buffer manager failed ,error=%w", err)
 		}
 		if qm, err = createQueueManagerWithMemFd(s.config.QueuePath, s.config.QueueCap); err != nil {
+			addGlobalBufferManagerRefCount(bm.path, -1)
 			return fmt.Errorf("create share memory queue manager failed ,error=%w", err)
 		}
 	}
